@@ -2,9 +2,8 @@
    force they apply to each variable is what ABF sees as "the other biases" (C04's i_o), and with lagged total
    forces it is part of the next step's measured force.  Over every numeric carrier. *)
 From Coq Require Import ZArith List Bool Lia.
-From CV Require Import Base.Num C03.ResumeModel C03.ResumeProofs C03.ObjectsModel C03.ObjectsProofs
-  C03.RestraintResume C03.RestraintMachine C03.AbfObject C03.AbfResume.
-From CV Require C06.RestraintModel C04.ABFModel.
+From CV Require Import Base.Num C03.ResumeModel C03.ResumeProofs C03.ObjectsModel C03.UsesC06 C03.ObjectsProofs
+  C03.RestraintResume C03.RestraintMachine C03.UsesC04 C03.UsesC04Proofs.
 Import ListNotations.
 Local Open Scope Z_scope.
 
@@ -16,12 +15,12 @@ Section AbfSystem.
   Definition abf_sys_in : Type := (list T * list T * list T * bool)%type.
 
   (* force of all restraints on variable k *)
-  Definition other_force (os : list (@RestraintModel.rout T)) (k : nat) : T :=
-    fold_left (fun a o => nadd O a (nth k (RestraintModel.o_forces o) (n0 O))) os (n0 O).
+  Definition other_force (os : list (r_out T)) (k : nat) : T :=
+    fold_left (fun a o => nadd O a (nth k (r_out_forces o) (n0 O))) os (n0 O).
 
-  Definition wire_abf (i : abf_sys_in) (os : list (@RestraintModel.rout T)) : @ABFModel.abf_in T :=
+  Definition wire_abf (i : abf_sys_in) (os : list (r_out T)) : abf_in_t (T:=T) :=
     let xs := fst (fst (fst i)) in
-    ABFModel.mkIn xs (snd (fst (fst i))) (map (other_force os) (seq 0 (length xs))) (snd (fst i)) false (snd i).
+    abf_input xs (snd (fst (fst i))) (map (other_force os) (seq 0 (length xs))) (snd (fst i)) (snd i).
 
   (* the restraints' input is the list of values *)
   Definition abf_sys_machine' :=
@@ -37,7 +36,7 @@ Section AbfSystem.
   Proof.
     unfold other_force. generalize (n0 O) at 2 4.
     induction os as [|o r IH]; intros a os' k H; destruct os' as [|o' r']; cbn [all2 fold_left] in *; try contradiction; auto.
-    destruct H as [[_ Hf] Hr]. rewrite Hf. apply IH; auto.
+    destruct H as [[_ Hf] Hr]. unfold r_out_forces. rewrite Hf. apply IH; auto.
   Qed.
 
   Lemma wire_eq0 i os os' : all2 (@r_out_eq0 T) os os' -> wire_abf i os = wire_abf i os'.
